@@ -14,10 +14,15 @@ const (
 	c13Group, c13Delim, c13Opt, c13Nested, c13NDelim, c13NOpt, c13After = 453, 448, 447, 802, 523, 803, 452
 	c13Other, c13OtherDelim, c13Follow                                  = 555, 600, 461
 	c13Sibling, c13SDelim                                               = 804, 545
+	c13Leg2, c13Leg3, c13OtherTail, c13Third, c13ThirdTail              = 601, 602, 670, 146, 336
 )
 
 func c13NestedTemplate() GroupTemplate {
 	return GroupTemplate{GroupElement(c13NDelim), GroupElement(c13NOpt)}
+}
+
+func c13OtherTemplate() GroupTemplate {
+	return GroupTemplate{GroupElement(c13OtherDelim), GroupElement(c13Leg2), GroupElement(c13Leg3), GroupElement(c13OtherTail)}
 }
 
 func c13Template() GroupTemplate {
@@ -35,9 +40,13 @@ func c13Dict() *datadictionary.DataDictionary {
 	nested := gt(c13Nested, ft(c13NDelim), ft(c13NOpt))
 	sibling := gt(c13Sibling, ft(c13SDelim))
 	grp := gt(c13Group, ft(c13Delim), ft(c13Opt), nested, sibling, ft(c13After))
-	other := gt(c13Other, ft(c13OtherDelim))
+	// two groups open with the same component (as NoLegs / NoUnderlyings do with InstrumentLeg / UnderlyingInstrument
+	// in the shipped dictionaries) and continue with members of their own
+	leg := *datadictionary.NewComponent(datadictionary.NewComponentType("Leg", []datadictionary.MessagePart{ft(c13OtherDelim), ft(c13Leg2), ft(c13Leg3)}), false)
+	other := gt(c13Other, leg, ft(c13OtherTail))
+	third := gt(c13Third, leg, ft(c13ThirdTail))
 	return &datadictionary.DataDictionary{
-		Messages: map[string]*datadictionary.MessageDef{"D": datadictionary.NewMessageDef("D", "D", []datadictionary.MessagePart{ft(11), grp, ft(c13Follow), other})},
+		Messages: map[string]*datadictionary.MessageDef{"D": datadictionary.NewMessageDef("D", "D", []datadictionary.MessagePart{ft(11), grp, ft(c13Follow), other, third})},
 	}
 }
 
@@ -106,6 +115,7 @@ func VerifHarness_C13_rt() {
 	m.Body.SetGroup(g)
 	place := verifConc(ndInt("placement", 0, 3))
 	follow := verifValueN("follow", 1)
+	otherTail := place == 3 && ndBool("following-group-has-its-own-last-member")
 	switch place {
 	case 0:
 		verifCase("group-last-in-body")
@@ -118,8 +128,12 @@ func VerifHarness_C13_rt() {
 		m.Body.SetBytes(Tag(c13Follow), follow)
 	case 3:
 		verifCase("group-followed-by-group")
-		og := NewRepeatingGroup(c13Other, GroupTemplate{GroupElement(c13OtherDelim)})
-		og.Add().SetBytes(c13OtherDelim, follow)
+		og := NewRepeatingGroup(c13Other, c13OtherTemplate())
+		oe := og.Add()
+		oe.SetBytes(c13OtherDelim, follow)
+		if otherTail {
+			oe.SetBytes(c13OtherTail, follow)
+		}
 		m.Body.SetGroup(og)
 	}
 	wire := m.build()
@@ -210,8 +224,24 @@ func VerifHarness_C13_rt() {
 		w, ok2 := val(&p.Body.FieldMap, c13Follow)
 		verifAssert(ok && ok2 && verifBytesEq(v, follow) && verifBytesEq(w, follow), "field-next-to-group-still-in-body")
 	case 3:
-		og := NewRepeatingGroup(c13Other, GroupTemplate{GroupElement(c13OtherDelim)})
+		og := NewRepeatingGroup(c13Other, c13OtherTemplate())
 		verifAssert(p.Body.GetGroup(og) == nil && og.Len() == 1, "following-group-still-readable")
+		if og.Len() == 1 {
+			v, ok := val(&og.Get(0).FieldMap, c13OtherTail)
+			verifAssert(ok == otherTail && (!ok || verifBytesEq(v, follow)), "following-group-last-member")
+		}
+		if dict != nil {
+			verifAssert(!p.Body.Has(c13OtherDelim) && !p.Body.Has(c13OtherTail), "group-members-not-plain-body-fields")
+			cp := NewMessage()
+			p.CopyInto(cp)
+			cg := NewRepeatingGroup(c13Other, c13OtherTemplate())
+			cerr := cp.Body.GetGroup(cg)
+			verifAssert(cerr == nil && cg.Len() == 1, "copied-message-keeps-the-group")
+			if cerr == nil && cg.Len() == 1 {
+				_, ok := val(&cg.Get(0).FieldMap, c13OtherTail)
+				verifAssert(ok == otherTail, "copied-message-keeps-the-group")
+			}
+		}
 	}
 	verifObserve("entries", got.Len())
 }
